@@ -77,6 +77,16 @@ func NewGamma(seed int64, tokens []string, prefixPairs [][2]string, plainOnly bo
 		pp[p] = true
 		longOf[p[1]] = p[0]
 	}
+	inToks := map[string]bool{}
+	for _, t := range toks {
+		inToks[t] = true
+	}
+	for long, short := range longOf {
+		// a prefix pair only binds when both of its names occur
+		if !inToks[long] || !inToks[short] {
+			delete(longOf, long)
+		}
+	}
 	for _, t := range toks {
 		if fixedTokens[t] || seed == 0 {
 			g.names[t] = t
